@@ -45,6 +45,8 @@ target("breezy/transform.py::_alter_files", block=(r"keep_content = False", r"if
                c.calls("tt.delete_contents") <= 1 and not (c.calls("tt.delete_contents") == 1 and c.calls("tt.adjust_path") > 0))},
        raises={"Exception": True},
        canary=lambda c: lift(c.calls("tt.delete_contents") == 0),
+       equivalent_mutants={r"basis_tree = working_tree\.basis_tree\(\)": "without the basis tree the comparison fails (AttributeError on None) and nothing is deleted",
+                           r"tt\.(un)?version_file\(": "versioning bookkeeping of the entry that receives the new content: not about the old content"},
        note="block: the decision to delete, keep or back up the working file's content for one change of a revert")
 
 # ---- InventoryWorkingTree.remove: the per-file deletion step (block). files_to_backup holds what must not be lost: unknown / newly added
